@@ -85,10 +85,18 @@ def optionalProse (p : Param) : Bool :=
       && !startsWith t pOptional
   | _, _ => false
 
+/-- a numeric or boolean default under a type that mentions `str` is handed to `quote()` (recorded finding:
+    AttributeError, a falsy value treated as absent, a negative one left as an ast node) -/
+def nonStrUnderStrType (p : Param) : Bool :=
+  match p.default with
+  | some (.int _ _) | some (.float _) | some (.bool _) =>
+    (match needsQuoting p.typ with | .ok q => q | _ => true)
+  | _ => false
+
 /-- inputs on which the round trips are this regular (everything else is a recorded finding or
     outside the property's domain) -/
 def domParamCommon (p : Param) : Bool :=
-  p.typ.isSome && p.doc.isSome && !optionalProse p &&
+  p.typ.isSome && p.doc.isSome && !optionalProse p && !nonStrUnderStrType p &&
   (match p.default with | some v => !isCodeVal v | none => true)
 
 def domClassParam (p : Param) : Bool :=
